@@ -36,7 +36,10 @@ type Op struct {
 	// writes into opened backups (so that source and copy grow by the same number of bytes)
 	PrefixDst bool `json:"prefixDst,omitempty"`
 	Nested    bool `json:"nested,omitempty"` // backup: into a fresh sub-directory of the data directory itself
-	Twin      int  `json:"twin,omitempty"`
+	// Mutate (fold): the callback overwrites the key and the value it is handed, in place, after looking at them -
+	// Fold's documentation says that changes to the items are not carried into the database
+	Mutate bool `json:"mutate,omitempty"`
+	Twin   int  `json:"twin,omitempty"`
 }
 
 // RaceOp is a write executed from inside Merge's scan loop, at its At-th
@@ -208,6 +211,7 @@ type Runner struct {
 	OnKilled      func(r *Runner)       // called between the death of the process and the restart of a kill op (C13)
 	staleBatch    *kv.Batch             // a committed batch whose handle the "caller" kept
 	prefixDstUsed bool
+	foldMutates   bool
 	spelling      int                   // how the directory is spelled in every Open of this history (Opt.Spelling of the first configuration)
 	OnMergeResult func(err error) *Fail // judge the return value of Merge (C06, C17)
 	LastMergeErr  error
@@ -701,7 +705,10 @@ func (r *Runner) exec(op *Op) (touched [][]byte, global bool, fail *Fail) {
 		for i := range op.Race {
 			written = append(written, op.Race[i].Op.Key)
 		}
-		return written, false, r.checkFold(op.N, op.Race)
+		r.foldMutates = op.Mutate
+		f := r.checkFold(op.N, op.Race)
+		r.foldMutates = false
+		return written, false, f
 
 	case "stat":
 		st := r.DB.Stat()
@@ -851,7 +858,19 @@ func (r *Runner) checkFold(stopAfter int, writes []RaceOp) *Fail {
 	err := r.DB.Fold(func(key, value []byte) bool {
 		n++
 		gotK = append(gotK, string(key))
-		keptK = append(keptK, key) // "collect now, process later": looked at again after Fold has returned
+		if r.foldMutates {
+			defer func(k, v []byte) {
+				for i := range k {
+					k[i] ^= 0x5a
+				}
+				for i := range v {
+					v[i] ^= 0x5a
+				}
+			}(key, value)
+			r.Stats.Label("fold-callback-overwrites-its-arguments")
+		} else {
+			keptK = append(keptK, key) // "collect now, process later": looked at again after Fold has returned
+		}
 		ScribbleBehind(key)
 		wv, ok := snap[string(key)]
 		if !ok {
@@ -889,7 +908,7 @@ func (r *Runner) checkFold(stopAfter int, writes []RaceOp) *Fail {
 		return bad
 	}
 	for i, k := range keptK {
-		if string(k) != gotK[i] {
+		if i < len(gotK) && string(k) != gotK[i] {
 			return failf("fold-key-changed-after-the-callback", "the key slice handed to the Fold callback at position %d read %q then and reads %q after Fold has returned (keys kept by the callback must stay what they were)", i, gotK[i], k)
 		}
 	}
